@@ -785,9 +785,12 @@ func genC13(g *Gen) {
 	// runs of exactly 1024, 1025, 2048, 2049 ... empty words (65536-bit blocks that block-wise scans skip) between
 	// 1-bits, the bits sitting in the first and last positions of the words around the run; scans starting in, right
 	// before and right behind the first word and ending in, right before and right behind the word after the run
-	for c := 0; c < g.N(8, 120); c++ {
+	for c := 0; c < g.N(8, 120)+g.N(4, 14); c++ {
 		lead := []int{0, 1, 2, 5}[r.Intn(4)]
 		run := []int{1024, 1024, 1025, 2048, 2049, 1023, 2050, 3072}[c%8]
+		if c >= g.N(8, 120) { // word counts around 2^15 and 2^16 (16-bit word counters)
+			run = []int{32768, 65536, 32767, 65537, 32769, 65535, 70000, 40000, 98304, 131072, 131073, 16384, 49152, 65534}[(c-g.N(8, 120)+int(g.Seed)*4)%14]
+		}
 		nw := lead + 1 + run + 1 + r.Intn(3)
 		ws := make([]uint64, nw, nw+1)
 		first, after := lead, lead+1+run // the word before the run and the word behind it
@@ -1295,8 +1298,9 @@ func genC14(g *Gen) {
 					ones[from-70+int64(r.Intn(int(to-from)+140))] = true
 				}
 				var ol []int64
+				emptyLast := c%3 == 2 // the last word of the bitmap holds no 1-bit (the range still ends in it)
 				for p := range ones {
-					if p >= 0 && p < nw*64 && p <= 1<<31-1 {
+					if p >= 0 && p < nw*64 && p <= 1<<31-1 && !(emptyLast && p >= nw*64-64) {
 						ol = append(ol, p)
 					}
 				}
